@@ -33,7 +33,7 @@ Print Assumptions C07_gate_rtu.
 Example C07_nonvacuous :
   let cfg := {| cf_dec := fun _ => DMsg; cf_rules := server_decoder; cf_units := [1%Z]; cf_single := false |} in
   snd (fst (rtu_recv cfg rtu_init (spec_adu_rtu 1 [3; 0; 1; 0; 2]))) = [([3; 0; 1; 0; 2], 1%Z)] /\ known_rules (cf_rules cfg).
-Proof. split; [vm_compute; reflexivity | left; reflexivity]. Qed.
+Proof. split; [vm_compute; reflexivity | exact known_server]. Qed.
 
 (* ---- DETECTION POWER of CRC-16/Modbus itself (spec side, independent of the framers).
    [crc_ok frame]: the last two bytes are the bitwise CRC of the rest, low byte first;
